@@ -50,7 +50,7 @@ def r1_gate(ctx):
     b = F.one(CWS)
     R.fn(b)
     m = b.calls_to(r"hyper::Request::<.*>::method$|http::Request::<.*>::method$")
-    cj = b.calls_to(r"transport::http::content_type_is_json$")
+    cj = b.calls_to(r"transport::http::content_type_is_json$") or b.calls_to(r"transport::http::is_json$")   # the small helper may be written out in place
     rb = _work_sites(F, b, r"http_helpers::read_body$")
     hr = _work_sites(F, b, r"server::handle_rpc_call$")
     R.check(len(m) == 1 and len(cj) == 1 and len(rb) == 1 and len(hr) == 1, "C19.R1", "shape", "method match, content-type test, one body read, one dispatch", "call_with_service changed: method=%d is_json=%d read_body=%d dispatch=%d" % (len(m), len(cj), len(rb), len(hr)), "%s:%d" % (b.file, b.lo))
@@ -106,7 +106,8 @@ def r1_gate(ctx):
         ok = any(op_const(x) and op_const(x).get("name", "").endswith(code) for c in rbd.calls for x in c.args)
         R.check(ok, "C19.R1", "%s:status" % nm, "%s() uses StatusCode::%s" % (nm, code), "%s() does not use StatusCode::%s" % (nm, code), "%s:%d" % (rbd.file, rbd.lo))
     # content_type_is_json looks at the Content-Type header
-    ct = F.one(r"^jsonrpsee_server::transport::http::content_type_is_json$")
+    cts = F.find(r"^jsonrpsee_server::transport::http::content_type_is_json$")
+    ct = cts[0] if len(cts) == 1 else b
     ok = False
     for c in ct.calls:
         for a in c.args:
